@@ -147,6 +147,17 @@ Theorem lut_lrelu_correct : forall zi zo ids idsh als alsh qmin qmax x,
     Some (LeakyReluRef zi zo ids (31 - idsh) als (31 - alsh) qmin qmax x).
 Proof. exact lut_lrelu_correct_lemma. Qed.
 
+(* convert_prelu (constant alpha, the same in every channel: alpha_scaling = (alpha_code - alpha_zp, scale, shift))
+   followed by convert_lrelu_to_lut: every entry equals the Prelu reference kernel; alpha shift 16..62
+   (multiplier below 2^15) *)
+Theorem lut_prelu_correct : forall zi zo azp acode ids idsh als alsh qmin qmax x,
+  same8 x zi -> same8 acode azp -> code8 zo ->
+  in_int 32 ids = true -> in_int 32 als = true -> 9 <= idsh <= 62 -> 16 <= alsh <= 62 ->
+  vela_prelu_entry zi zo azp acode ids idsh als alsh qmin qmax x =
+    Some (PReluRef zi zo azp acode ids (31 - idsh) als (31 - alsh) qmin qmax x).
+Proof. exact lut_prelu_correct_lemma. Qed.
+Print Assumptions lut_prelu_correct.
+
 (* convert_hardswish_to_lut under Python-int evaluation of fp_math (see the check for NumPy scalars):
    output multiplier exponent <= 0 as the reference kernel requires *)
 Theorem lut_hardswish_correct : forall zi zo os osh rs rsh qmin qmax x,
